@@ -12,7 +12,7 @@ open Spec
 def FreeOf (cs body : List Char) : Prop := ∀ c ∈ body, c ∉ cs
 
 /-- the same text, or the same tag body under the two delimiter pairs -/
-def TokX (ds de ds' de' : List Char) (t u : Token) : Prop :=
+def TokX0 (ds de ds' de' : List Char) (t u : Token) : Prop :=
   t.kind = u.kind ∧
     ((t.kind = .text ∧ t.value = u.value) ∨
      (t.kind = .element ∧ ∃ body, body ≠ [] ∧ t.value = ds ++ body ++ de ∧ u.value = ds' ++ body ++ de' ∧
@@ -41,7 +41,7 @@ theorem elparse_free (ds de body : List Char) (t : Token) (hds : ds ≠ []) (hde
     simpa using this
 
 theorem elparse_x (ds de ds' de' : List Char) (hds : ds ≠ []) (hde : de ≠ []) (hds' : ds' ≠ []) (hde' : de' ≠ [])
-    (t u : Token) (h : TokX ds de ds' de' t u) : elparse ds de t = elparse ds' de' u := by
+    (t u : Token) (h : TokX0 ds de ds' de' t u) : elparse ds de t = elparse ds' de' u := by
   obtain ⟨hk, h | h⟩ := h
   · obtain ⟨hkt, _⟩ := h
     have hku : u.kind = .text := by rw [← hk]; exact hkt
@@ -53,7 +53,10 @@ theorem elparse_x (ds de ds' de' : List Char) (hds : ds ≠ []) (hde : de ≠ []
 /-! ### forests of the same shape -/
 
 section
-variable (ds de ds' de' : List Char)
+variable (ds de ds' de' : List Char) (R : Token → Token → Prop)
+
+/-- corresponding tokens, with any further relation `R` carried along (e.g. equal line numbers) -/
+def TokX (t u : Token) : Prop := TokX0 ds de ds' de' t u ∧ R t u
 
 mutual
 def partsX : List Part → List Part → Prop
@@ -62,15 +65,15 @@ def partsX : List Part → List Part → Prop
   | [], _ :: _ => False
   | _ :: _, [] => False
 def partX : Part → Part → Prop
-  | .text t, .text u => TokX ds de ds' de' t u
+  | .text t, .text u => TokX ds de ds' de' R t u
   | .element el st en ch, .element el' st' en' ch' =>
-    el = el' ∧ TokX ds de ds' de' st st' ∧ TokX ds de ds' de' en en' ∧ partsX ch ch'
+    el = el' ∧ TokX ds de ds' de' R st st' ∧ TokX ds de ds' de' R en en' ∧ partsX ch ch'
   | .text _, .element _ _ _ _ => False
   | .element _ _ _ _, .text _ => False
 end
 
-theorem partsX_append : ∀ (a b c d : List Part), partsX ds de ds' de' a b → partsX ds de ds' de' c d →
-    partsX ds de ds' de' (a ++ c) (b ++ d)
+theorem partsX_append : ∀ (a b c d : List Part), partsX ds de ds' de' R a b → partsX ds de ds' de' R c d →
+    partsX ds de ds' de' R (a ++ c) (b ++ d)
   | [], [], _, _, _, h2 => by simpa using h2
   | [], _ :: _, _, _, h1, _ => absurd h1 (by simp [partsX])
   | _ :: _, [], _, _, h1, _ => absurd h1 (by simp [partsX])
@@ -82,12 +85,12 @@ theorem partsX_append : ∀ (a b c d : List Part), partsX ds de ds' de' a b → 
 /-- token lists related one by one -/
 def TokXs : List Token → List Token → Prop
   | [], [] => True
-  | t :: ts, u :: us => TokX ds de ds' de' t u ∧ TokXs ts us
+  | t :: ts, u :: us => TokX ds de ds' de' R t u ∧ TokXs ts us
   | [], _ :: _ => False
   | _ :: _, [] => False
 
-theorem TokXs_append : ∀ (a b c d : List Token), TokXs ds de ds' de' a b → TokXs ds de ds' de' c d →
-    TokXs ds de ds' de' (a ++ c) (b ++ d)
+theorem TokXs_append : ∀ (a b c d : List Token), TokXs ds de ds' de' R a b → TokXs ds de ds' de' R c d →
+    TokXs ds de ds' de' R (a ++ c) (b ++ d)
   | [], [], _, _, _, h2 => by simpa using h2
   | [], _ :: _, _, _, h1, _ => absurd h1 (by simp [TokXs])
   | _ :: _, [], _, _, h1, _ => absurd h1 (by simp [TokXs])
@@ -97,15 +100,15 @@ theorem TokXs_append : ∀ (a b c d : List Token), TokXs ds de ds' de' a b → T
     exact ⟨h1.1, TokXs_append ps qs c d h1.2 h2⟩
 
 mutual
-theorem flatten_x : ∀ (a b : List Part), partsX ds de ds' de' a b → TokXs ds de ds' de' (flattenParts a) (flattenParts b)
+theorem flatten_x : ∀ (a b : List Part), partsX ds de ds' de' R a b → TokXs ds de ds' de' R (flattenParts a) (flattenParts b)
   | [], [], _ => trivial
   | [], _ :: _, h => absurd h (by simp [partsX])
   | _ :: _, [], h => absurd h (by simp [partsX])
   | p :: ps, q :: qs, h => by
     simp only [partsX] at h
     simp only [flattenParts]
-    exact TokXs_append ds de ds' de' _ _ _ _ (flattenPart_x p q h.1) (flatten_x ps qs h.2)
-theorem flattenPart_x : ∀ (p q : Part), partX ds de ds' de' p q → TokXs ds de ds' de' (flattenPart p) (flattenPart q)
+    exact TokXs_append ds de ds' de' R _ _ _ _ (flattenPart_x p q h.1) (flatten_x ps qs h.2)
+theorem flattenPart_x : ∀ (p q : Part), partX ds de ds' de' R p q → TokXs ds de ds' de' R (flattenPart p) (flattenPart q)
   | .text t, .text u, h => by simp only [partX] at h; exact ⟨h, trivial⟩
   | .text _, .element _ _ _ _, h => absurd h (by simp [partX])
   | .element _ _ _ _, .text _, h => absurd h (by simp [partX])
@@ -113,22 +116,22 @@ theorem flattenPart_x : ∀ (p q : Part), partX ds de ds' de' p q → TokXs ds d
     simp only [partX] at h
     obtain ⟨_, h2, h3, h4⟩ := h
     simp only [flattenPart]
-    have := TokXs_append ds de ds' de' _ _ [en] [en'] (flatten_x ch ch' h4) ⟨h3, trivial⟩
+    have := TokXs_append ds de ds' de' R _ _ [en] [en'] (flatten_x ch ch' h4) ⟨h3, trivial⟩
     exact ⟨h2, this⟩
 end
 
 mutual
-theorem prune_x (P : Element → Bool) : ∀ (a b : List Part), partsX ds de ds' de' a b →
-    partsX ds de ds' de' (pruneParts P a) (pruneParts P b)
+theorem prune_x (P : Element → Bool) : ∀ (a b : List Part), partsX ds de ds' de' R a b →
+    partsX ds de ds' de' R (pruneParts P a) (pruneParts P b)
   | [], [], _ => trivial
   | [], _ :: _, h => absurd h (by simp [partsX])
   | _ :: _, [], h => absurd h (by simp [partsX])
   | p :: ps, q :: qs, h => by
     simp only [partsX] at h
     simp only [pruneParts]
-    exact partsX_append ds de ds' de' _ _ _ _ (prunePart_x P p q h.1) (prune_x P ps qs h.2)
-theorem prunePart_x (P : Element → Bool) : ∀ (p q : Part), partX ds de ds' de' p q →
-    partsX ds de ds' de' (prunePart P p) (prunePart P q)
+    exact partsX_append ds de ds' de' R _ _ _ _ (prunePart_x P p q h.1) (prune_x P ps qs h.2)
+theorem prunePart_x (P : Element → Bool) : ∀ (p q : Part), partX ds de ds' de' R p q →
+    partsX ds de ds' de' R (prunePart P p) (prunePart P q)
   | .text t, .text u, h => by simp only [partX] at h; simp only [prunePart, partsX, partX]; exact ⟨h, trivial⟩
   | .text _, .element _ _ _ _, h => absurd h (by simp [partX])
   | .element _ _ _ _, .text _, h => absurd h (by simp [partX])
@@ -144,7 +147,7 @@ theorem prunePart_x (P : Element → Bool) : ∀ (p q : Part), partX ds de ds' d
 end
 
 mutual
-theorem elements_x : ∀ (a b : List Part), partsX ds de ds' de' a b →
+theorem elements_x : ∀ (a b : List Part), partsX ds de ds' de' R a b →
     (elementsOf a).map (·.1) = (elementsOf b).map (·.1)
   | [], [], _ => rfl
   | [], _ :: _, h => absurd h (by simp [partsX])
@@ -152,7 +155,7 @@ theorem elements_x : ∀ (a b : List Part), partsX ds de ds' de' a b →
   | p :: ps, q :: qs, h => by
     simp only [partsX] at h
     simp only [elementsOf, List.map_append, elementsPart_x p q h.1, elements_x ps qs h.2]
-theorem elementsPart_x : ∀ (p q : Part), partX ds de ds' de' p q →
+theorem elementsPart_x : ∀ (p q : Part), partX ds de ds' de' R p q →
     (elementsOfPart p).map (·.1) = (elementsOfPart q).map (·.1)
   | .text t, .text u, _ => by simp [elementsOfPart]
   | .text _, .element _ _ _ _, h => absurd h (by simp [partX])
@@ -166,32 +169,32 @@ end
 /-! ### the stack machine under the two delimiter pairs -/
 
 def FrameX (f g : Frame) : Prop :=
-  f.el = g.el ∧ TokX ds de ds' de' f.tok g.tok ∧ partsX ds de ds' de' f.parts g.parts
+  f.el = g.el ∧ TokX ds de ds' de' R f.tok g.tok ∧ partsX ds de ds' de' R f.parts g.parts
 
 def StackX : List Frame → List Frame → Prop
   | [], [] => True
-  | f :: fs, g :: gs => FrameX ds de ds' de' f g ∧ StackX fs gs
+  | f :: fs, g :: gs => FrameX ds de ds' de' R f g ∧ StackX fs gs
   | [], _ :: _ => False
   | _ :: _, [] => False
 
-def StateX (s t : List Frame × List Part) : Prop := StackX ds de ds' de' s.1 t.1 ∧ partsX ds de ds' de' s.2 t.2
+def StateX (s t : List Frame × List Part) : Prop := StackX ds de ds' de' R s.1 t.1 ∧ partsX ds de ds' de' R s.2 t.2
 
-theorem appendTo_x (S S' : List Frame) (r r' x x' : List Part) (hS : StackX ds de ds' de' S S')
-    (hr : partsX ds de ds' de' r r') (hx : partsX ds de ds' de' x x') :
-    StateX ds de ds' de' (appendTo S r x) (appendTo S' r' x') := by
+theorem appendTo_x (S S' : List Frame) (r r' x x' : List Part) (hS : StackX ds de ds' de' R S S')
+    (hr : partsX ds de ds' de' R r r') (hx : partsX ds de ds' de' R x x') :
+    StateX ds de ds' de' R (appendTo S r x) (appendTo S' r' x') := by
   cases S with
   | nil =>
     cases S' with
-    | nil => exact ⟨trivial, partsX_append ds de ds' de' _ _ _ _ hr hx⟩
+    | nil => exact ⟨trivial, partsX_append ds de ds' de' R _ _ _ _ hr hx⟩
     | cons g gs => exact absurd hS (by simp [StackX])
   | cons f fs =>
     cases S' with
     | nil => exact absurd hS (by simp [StackX])
     | cons g gs =>
       obtain ⟨⟨a1, a2, a3⟩, hrest⟩ := hS
-      exact ⟨⟨⟨a1, a2, partsX_append ds de ds' de' _ _ _ _ a3 hx⟩, hrest⟩, hr⟩
+      exact ⟨⟨⟨a1, a2, partsX_append ds de ds' de' R _ _ _ _ a3 hx⟩, hrest⟩, hr⟩
 
-theorem stackX_any (x : List Char) : ∀ (S S' : List Frame), StackX ds de ds' de' S S' →
+theorem stackX_any (x : List Char) : ∀ (S S' : List Frame), StackX ds de ds' de' R S S' →
     S.any (fun f => f.el.name == x) = S'.any (fun f => f.el.name == x)
   | [], [], _ => rfl
   | [], _ :: _, h => absurd h (by simp [StackX])
@@ -201,14 +204,14 @@ theorem stackX_any (x : List Char) : ∀ (S S' : List Frame), StackX ds de ds' d
     simp only [List.any_cons, a1, stackX_any x fs gs hrest]
 
 def OptX : Option (List Frame × List Part) → Option (List Frame × List Part) → Prop
-  | some a, some b => StateX ds de ds' de' a b
+  | some a, some b => StateX ds de ds' de' R a b
   | none, none => True
   | some _, none => False
   | none, some _ => False
 
-theorem closeFrame_x (name : List Char) (c c' : Token) (hc : TokX ds de ds' de' c c') :
-    ∀ (S S' : List Frame) (r r' h h' : List Part), StackX ds de ds' de' S S' → partsX ds de ds' de' r r' →
-    partsX ds de ds' de' h h' → OptX ds de ds' de' (closeFrame name c S r h) (closeFrame name c' S' r' h')
+theorem closeFrame_x (name : List Char) (c c' : Token) (hc : TokX ds de ds' de' R c c') :
+    ∀ (S S' : List Frame) (r r' h h' : List Part), StackX ds de ds' de' R S S' → partsX ds de ds' de' R r r' →
+    partsX ds de ds' de' R h h' → OptX ds de ds' de' R (closeFrame name c S r h) (closeFrame name c' S' r' h')
   | [], [], _, _, _, _, _, _, _ => by simp [closeFrame, OptX]
   | [], _ :: _, _, _, _, _, hS, _, _ => absurd hS (by simp [StackX])
   | _ :: _, [], _, _, _, _, hS, _, _ => absurd hS (by simp [StackX])
@@ -217,31 +220,31 @@ theorem closeFrame_x (name : List Char) (c c' : Token) (hc : TokX ds de ds' de' 
     simp only [closeFrame, ← a1]
     split
     · simp only [OptX]
-      apply appendTo_x ds de ds' de' fs gs r r' _ _ hrest hr
+      apply appendTo_x ds de ds' de' R fs gs r r' _ _ hrest hr
       simp only [partsX, partX]
-      exact ⟨⟨trivial, a2, hc, partsX_append ds de ds' de' _ _ _ _ a3 hh⟩, trivial⟩
+      exact ⟨⟨trivial, a2, hc, partsX_append ds de ds' de' R _ _ _ _ a3 hh⟩, trivial⟩
     · apply closeFrame_x name c c' hc fs gs r r' _ _ hrest hr
       simp only [partsX, partX]
-      exact ⟨a2, partsX_append ds de ds' de' _ _ _ _ a3 hh⟩
+      exact ⟨a2, partsX_append ds de ds' de' R _ _ _ _ a3 hh⟩
 
 theorem stackStep_x (hds : ds ≠ []) (hde : de ≠ []) (hds' : ds' ≠ []) (hde' : de' ≠ [])
-    (st st' : List Frame × List Part) (t u : Token) (h : StateX ds de ds' de' st st')
-    (htu : TokX ds de ds' de' t u) : StateX ds de ds' de' (stackStep ds de st t) (stackStep ds' de' st' u) := by
+    (st st' : List Frame × List Part) (t u : Token) (h : StateX ds de ds' de' R st st')
+    (htu : TokX ds de ds' de' R t u) : StateX ds de ds' de' R (stackStep ds de st t) (stackStep ds' de' st' u) := by
   obtain ⟨S, r⟩ := st
   obtain ⟨S', r'⟩ := st'
   obtain ⟨hS, hr⟩ := h
   simp only at hS hr
-  simp only [stackStep, ← elparse_x ds de ds' de' hds hde hds' hde' t u htu]
+  simp only [stackStep, ← elparse_x ds de ds' de' hds hde hds' hde' t u htu.1]
   cases hel : elparse ds de t with
   | none =>
-    apply appendTo_x ds de ds' de' S S' r r' _ _ hS hr
+    apply appendTo_x ds de ds' de' R S S' r r' _ _ hS hr
     simp only [partsX, partX]
     exact ⟨htu, trivial⟩
   | some el =>
     simp only
-    rw [← stackX_any ds de ds' de' _ S S' hS]
+    rw [← stackX_any ds de ds' de' R _ S S' hS]
     split
-    · have := closeFrame_x ds de ds' de' (trimSlashes el.name) t u htu S S' r r' [] [] hS hr trivial
+    · have := closeFrame_x ds de ds' de' R (trimSlashes el.name) t u htu S S' r r' [] [] hS hr trivial
       revert this
       cases closeFrame (trimSlashes el.name) t S r [] <;> cases closeFrame (trimSlashes el.name) u S' r' [] <;>
         simp only [OptX] <;> intro this
@@ -252,8 +255,8 @@ theorem stackStep_x (hds : ds ≠ []) (hde : de ≠ []) (hds' : ds' ≠ []) (hde
     · exact ⟨⟨⟨rfl, htu, trivial⟩, hS⟩, hr⟩
 
 theorem runM_x (hds : ds ≠ []) (hde : de ≠ []) (hds' : ds' ≠ []) (hde' : de' ≠ []) :
-    ∀ (T T' : List Token), TokXs ds de ds' de' T T' → ∀ (st st' : List Frame × List Part), StateX ds de ds' de' st st' →
-    StateX ds de ds' de' (runM ds de st T) (runM ds' de' st' T')
+    ∀ (T T' : List Token), TokXs ds de ds' de' R T T' → ∀ (st st' : List Frame × List Part), StateX ds de ds' de' R st st' →
+    StateX ds de ds' de' R (runM ds de st T) (runM ds' de' st' T')
   | [], [], _, st, st', h => h
   | [], _ :: _, h, _, _, _ => absurd h (by simp [TokXs])
   | _ :: _, [], h, _, _, _ => absurd h (by simp [TokXs])
@@ -262,12 +265,12 @@ theorem runM_x (hds : ds ≠ []) (hde : de ≠ []) (hds' : ds' ≠ []) (hde' : d
     have e1 : runM ds de st (t :: ts) = runM ds de (stackStep ds de st t) ts := by simp [runM]
     have e2 : runM ds' de' st' (u :: us) = runM ds' de' (stackStep ds' de' st' u) us := by simp [runM]
     rw [e1, e2]
-    exact runM_x hds hde hds' hde' ts us h.2 _ _ (stackStep_x ds de ds' de' hds hde hds' hde' st st' t u hst h.1)
+    exact runM_x hds hde hds' hde' ts us h.2 _ _ (stackStep_x ds de ds' de' R hds hde hds' hde' st st' t u hst h.1)
 
-theorem finishStack_x : ∀ (S S' : List Frame) (h h' r r' : List Part), StackX ds de ds' de' S S' →
-    partsX ds de ds' de' h h' → partsX ds de ds' de' r r' →
-    partsX ds de ds' de' (finishStack S h r) (finishStack S' h' r')
-  | [], [], _, _, _, _, _, hh, hr => by simp only [finishStack]; exact partsX_append ds de ds' de' _ _ _ _ hr hh
+theorem finishStack_x : ∀ (S S' : List Frame) (h h' r r' : List Part), StackX ds de ds' de' R S S' →
+    partsX ds de ds' de' R h h' → partsX ds de ds' de' R r r' →
+    partsX ds de ds' de' R (finishStack S h r) (finishStack S' h' r')
+  | [], [], _, _, _, _, _, hh, hr => by simp only [finishStack]; exact partsX_append ds de ds' de' R _ _ _ _ hr hh
   | [], _ :: _, _, _, _, _, hS, _, _ => absurd hS (by simp [StackX])
   | _ :: _, [], _, _, _, _, hS, _, _ => absurd hS (by simp [StackX])
   | f :: fs, g :: gs, h, h', r, r', hS, hh, hr => by
@@ -275,20 +278,20 @@ theorem finishStack_x : ∀ (S S' : List Frame) (h h' r r' : List Part), StackX 
     simp only [finishStack]
     apply finishStack_x fs gs _ _ r r' hrest _ hr
     simp only [partsX, partX]
-    exact ⟨a2, partsX_append ds de ds' de' _ _ _ _ a3 hh⟩
+    exact ⟨a2, partsX_append ds de ds' de' R _ _ _ _ a3 hh⟩
 
 /-- the forests of corresponding token lists correspond -/
 theorem parse_x (hds : ds ≠ []) (hde : de ≠ []) (hds' : ds' ≠ []) (hde' : de' ≠ []) (T T' : List Token)
-    (h : TokXs ds de ds' de' T T') : partsX ds de ds' de' (parse ds de T) (parse ds' de' T') := by
+    (h : TokXs ds de ds' de' R T T') : partsX ds de ds' de' R (parse ds de T) (parse ds' de' T') := by
   rw [parse_eq_stackParse, parse_eq_stackParse]
-  have := runM_x ds de ds' de' hds hde hds' hde' T T' h ([], []) ([], []) ⟨trivial, trivial⟩
+  have := runM_x ds de ds' de' R hds hde hds' hde' T T' h ([], []) ([], []) ⟨trivial, trivial⟩
   simp only [stackParse]
   simp only [runM] at this
   generalize List.foldl (stackStep ds de) ([], []) T = s1 at this ⊢
   generalize List.foldl (stackStep ds' de') ([], []) T' = s2 at this ⊢
   obtain ⟨S, r⟩ := s1
   obtain ⟨S', r'⟩ := s2
-  exact finishStack_x ds de ds' de' S S' [] [] r r' this.1 trivial this.2
+  exact finishStack_x ds de ds' de' R S S' [] [] r r' this.1 trivial this.2
 
 end
 
@@ -302,7 +305,7 @@ def Piece.free (cs : List Char) : Piece → Prop
 theorem tokXs_of_tnorm (ds de ds' de' : List Char) : ∀ (ps : List Piece) (acc : List Char) (T T' : List Token),
     (∀ p ∈ ps, p.free (ds ++ de) ∧ p.free (ds' ++ de')) →
     T.map (fun t => (t.kind, t.value)) = tnorm ds de [] ps acc →
-    T'.map (fun t => (t.kind, t.value)) = tnorm ds' de' [] ps acc → TokXs ds de ds' de' T T'
+    T'.map (fun t => (t.kind, t.value)) = tnorm ds' de' [] ps acc → TokXs ds de ds' de' (fun _ _ => True) T T'
   | [], acc, T, T', _, hT, hT' => by
     simp only [tnorm, List.append_nil] at hT hT'
     split at hT
@@ -317,7 +320,7 @@ theorem tokXs_of_tnorm (ds de ds' de' : List Char) : ∀ (ps : List Piece) (acc 
           simp only [List.map_cons, List.cons.injEq, Prod.mk.injEq, List.map_eq_nil_iff] at hT hT'
           obtain ⟨⟨xk, xv⟩, rfl⟩ := hT
           obtain ⟨⟨yk, yv⟩, rfl⟩ := hT'
-          exact ⟨⟨by rw [xk, yk], Or.inl ⟨xk, by rw [xv, yv]⟩⟩, trivial⟩
+          exact ⟨⟨⟨by rw [xk, yk], Or.inl ⟨xk, by rw [xv, yv]⟩⟩, trivial⟩, trivial⟩
     · rename_i hacc
       rw [if_neg hacc] at hT'
       simp only [List.map_eq_nil_iff] at hT hT'
@@ -344,9 +347,9 @@ theorem tokXs_of_tnorm (ds de ds' de' : List Char) : ∀ (ps : List Piece) (acc 
         simp only [List.map_cons, List.cons.injEq, Prod.mk.injEq, List.map_eq_nil_iff] at hT2 hU2
         obtain ⟨⟨uk, uv⟩, rfl⟩ := hT2
         obtain ⟨⟨vk, vv⟩, rfl⟩ := hU2
-        have htag : TokX ds de ds' de' u v :=
-          ⟨by rw [uk, vk], Or.inr ⟨uk, b0 :: rest, by simp, by rw [uv]; simp, by rw [vv]; simp, hfr, hfr'⟩⟩
-        have h1 : TokXs ds de ds' de' T1 U1 := by
+        have htag : TokX ds de ds' de' (fun _ _ => True) u v :=
+          ⟨⟨by rw [uk, vk], Or.inr ⟨uk, b0 :: rest, by simp, by rw [uv]; simp, by rw [vv]; simp, hfr, hfr'⟩⟩, trivial⟩
+        have h1 : TokXs ds de ds' de' (fun _ _ => True) T1 U1 := by
           split at hT1
           · rename_i hacc
             rw [if_pos hacc] at hU1
@@ -359,12 +362,12 @@ theorem tokXs_of_tnorm (ds de ds' de' : List Char) : ∀ (ps : List Piece) (acc 
                 simp only [List.map_cons, List.cons.injEq, Prod.mk.injEq, List.map_eq_nil_iff] at hT1 hU1
                 obtain ⟨⟨xk, xv⟩, rfl⟩ := hT1
                 obtain ⟨⟨yk, yv⟩, rfl⟩ := hU1
-                exact ⟨⟨by rw [xk, yk], Or.inl ⟨xk, by rw [xv, yv]⟩⟩, trivial⟩
+                exact ⟨⟨⟨by rw [xk, yk], Or.inl ⟨xk, by rw [xv, yv]⟩⟩, trivial⟩, trivial⟩
           · rename_i hacc
             rw [if_neg hacc] at hU1
             simp only [List.map_eq_nil_iff] at hT1 hU1
             subst hT1 hU1
             trivial
-        exact TokXs_append ds de ds' de' _ _ _ _ (TokXs_append ds de ds' de' _ _ [u] [v] h1 ⟨htag, trivial⟩) ih
+        exact TokXs_append ds de ds' de' _ _ _ _ _ (TokXs_append ds de ds' de' _ _ _ [u] [v] h1 ⟨htag, trivial⟩) ih
 
 end Chiritori
